@@ -5,7 +5,8 @@ from ..index import AnalysisError, dotted
 from ..astutil import text, short, endswith, calls_in, walk_no_nested
 from ..callgraph import CallGraph
 from ..ordertaint import Analysis, REDUCERS, key_is_injective, key_has_element
-from ._h_F import ifn, Res, res_of, iterations, aliases_of, strip_wrappers, call_arg, absent
+from ._h_F import (ifn, Res, res_of, iterations, aliases_of, strip_wrappers, call_arg, absent,
+                   sorted_view, loop_body_nodes)
 
 EXPLANATION = (
   "Order-taint analysis: iteration order of set-typed values (hash-seed / object-identity "
@@ -173,16 +174,27 @@ def r4_schedule(run, w):
   fn = ifn(w, "engine.Engine._make_sorted_work_items")
   r = res_of(w, fn)
   p = fn.fi.params()[1]
-  # the nodes handed in reach the work items only through a sort whose key contains the node
-  srt = [(n, c) for (n, c) in _sorted_calls(fn) if r.norm(c.args[0], n.id) == p]
-  ok = len(srt) >= 1 and all(key_has_element(fn, c) for (n, c) in srt)
-  # ... and every iteration of the parameter goes over the sorted value
+  # every iteration that involves the nodes handed in goes over a sorted view of them whose key
+  # contains the node itself
+  ok, n_sorted = True, 0
+  names = aliases_of(r, p)
   for (it, tg, body, owner) in iterations(fn.node):
-    at = r.node_of_expr(it)
-    t = r.expand(it, at[0].id) if at else it
-    if any(isinstance(x, ast.Name) and x.id == p for x in ast.walk(t)):
-      ok = ok and isinstance(t, ast.Call) and dotted(t.func) == "sorted" and \
-          bool(t.args) and text(t.args[0]) == p
+    at = r.node_of_expr(it) if not isinstance(owner, ast.For) else r.nodes_of(owner)
+    if not at:
+      continue
+    t = r.expand(it, at[0].id)
+    mentions = any(isinstance(x, ast.Name) and x.id in names for x in ast.walk(t)) or \
+        (isinstance(it, ast.Name) and any(
+          isinstance(x, ast.Name) and x.id in names
+          for (v, d) in (r.values_at(at[0].id, it.id) or []) for x in ast.walk(r.expand(v, d))))
+    if not mentions:
+      continue
+    sv = sorted_view(r, fn, it, at[0].id)
+    good = sv is not None and isinstance(sv[0], ast.Name) and sv[0].id in names and \
+        key_has_element(fn, sv[1])
+    n_sorted += good
+    ok = ok and good
+  ok = ok and n_sorted >= 1
   run.ob(R4, fn.qualname, "sorted(nodes, key=lambda n: (..., n))", "scheduling order does not "
          "depend on dict/set iteration order: the sort key contains the node itself", ok, fi=fn.fi)
   for q in ("engine.Engine._bring_all_up_to_date", "engine.Engine._bring_mlookups_up_to_date",
@@ -224,6 +236,15 @@ def _outside_sorted(e, pred):
   return any(_outside_sorted(ch, pred) for ch in ast.iter_child_nodes(e))
 
 
+def _parent_of(node, x):
+  for root in node.exprs:
+    for p in ast.walk(root):
+      for ch in ast.iter_child_nodes(p):
+        if ch is x:
+          return p
+  return None
+
+
 def _inside(root, node):
   return any(x is node for x in ast.walk(root))
 
@@ -255,7 +276,19 @@ def r5_sorted_flush(run, w):
   srt = _sorted_calls(fn)
   n_it = 0
   ok = True
-  du = r.du
+  def order_free_use(x, node):
+    """Is this read of an accumulated list insensitive to its order (or does it put it in order)?"""
+    par = _parent_of(node, x)
+    if isinstance(par, ast.Call) and dotted(par.func) in REDUCERS and par.args and \
+        par.args[0] is x:
+      return dotted(par.func) != "sorted" or key_is_injective(fn, par)
+    if isinstance(par, ast.Attribute) and par.attr == "sort":
+      return True
+    if isinstance(par, ast.UnaryOp) and isinstance(par.op, ast.Not):
+      return True
+    if node.kind in ("if", "while") and node.stmt.test is x:
+      return True
+    return False
   for (it, tg, body, owner) in iterations(fn.node):
     base = it
     while isinstance(base, ast.Call) and isinstance(base.func, ast.Attribute) and \
@@ -265,27 +298,41 @@ def r5_sorted_flush(run, w):
     if not (isinstance(base, ast.Name) and base.id in names):
       continue
     n_it += 1
-    inside_sorted = any(_inside(c.args[0], owner) for (n, c) in srt if key_is_injective(fn, c))
-    if inside_sorted:
-      continue
-    # built first, sorted afterwards: the value built here is used only as the operand of a sort
-    at = r.node_of_expr(owner) if not isinstance(owner, ast.For) else r.nodes_of(owner)
-    fed = False
-    for (n, c) in srt:
-      if not key_is_injective(fn, c):
+    if any(_inside(c.args[0], owner) for (n, c) in srt if key_is_injective(fn, c)):
+      continue          # iterated inside the operand of a sorted(...)
+    # otherwise: whatever is accumulated in iteration order must be sorted before any other use
+    acc = set()
+    if isinstance(owner, ast.For):
+      inner = loop_body_nodes(r, owner)
+      for nm, ms in r.du.muts.items():
+        if set(ms) & inner:
+          acc.add(nm)
+      skip = inner | {x.id for x in r.nodes_of(owner)}
+    else:
+      at = r.node_of_expr(owner)
+      skip = set()
+      if at and at[0].kind == "stmt" and isinstance(at[0].stmt, ast.Assign) and \
+          at[0].stmt.value is owner and len(at[0].stmt.targets) == 1 and \
+          isinstance(at[0].stmt.targets[0], ast.Name):
+        acc.add(at[0].stmt.targets[0].id)
+        skip = {at[0].id}
+      else:
+        ok = False
         continue
-      sl = du.backward_slice([c.args[0]])
-      if at and at[0].id in sl:
-        written = {nm for nm, ds in r.defs.items() if at[0].id in ds} | \
-            {nm for nm, ds in du.muts.items() if any(x.id in ds for x in r.cfg.nodes
-                                                      if x.stmt is not None and
-                                                      isinstance(owner, ast.For) and
-                                                      _inside(owner, x.stmt))}
-        uses = [x for x in r.cfg.nodes for e in x.exprs for y in walk_no_nested(e)
-                if isinstance(y, ast.Name) and isinstance(y.ctx, ast.Load) and y.id in written
-                and x.id not in sl and x.id != n.id]
-        fed = not uses
-    ok = ok and fed
+    for L in acc:
+      sorts = {n.id for n in r.cfg.nodes for c in calls_in(n.exprs)
+               if isinstance(c.func, ast.Attribute) and c.func.attr == "sort" and
+               isinstance(c.func.value, ast.Name) and c.func.value.id == L and
+               key_is_injective(fn, c)}
+      for n in r.cfg.nodes:
+        if n.id in skip:
+          continue
+        for e in n.exprs:
+          for x in walk_no_nested(e, into_lambda=True):
+            if isinstance(x, ast.Name) and x.id == L and isinstance(x.ctx, ast.Load):
+              if order_free_use(x, n) or (sorts and r.cfg.dominated_by(n.id, sorts)):
+                continue
+              ok = False
   run.ob(R5, fn.qualname, "full_row_ids = sorted(...)", "rows inside a calc action are in row id "
          "order", ok and n_it >= 1, fi=fn.fi)
   fn = ifn(w, "docmodel.DocModel.apply_auto_removes")
